@@ -135,7 +135,73 @@ def make_events(case):
                     r = None
                 ev["h"] = snap(objs, [r] if r is not None and hasattr(r, "left") else [])
                 out.append(ev)
+    # ---- clone_from_root again on the same node after an in-place change of its ancestors
+    if is_expr:
+        for how in ("rotate_parent", "swap_siblings", "new_root", "restate"):
+            tree2 = build_tree(case)
+            if tree2 is None:
+                break
+            nodes = rewrite.inorder(tree2)
+            for k in range(len(nodes)):
+                t3 = build_tree(case)
+                nd = rewrite.inorder(t3)[k]
+                if nd.parent is None:
+                    continue
+                try:
+                    nd.clone_from_root()                       # first call (result not needed)
+                    if not change_ancestors(nd, how):
+                        continue
+                except BaseException:  # noqa
+                    continue
+                objs = project.ObjTable()
+                root_now = nd.get_root()
+                hb = snap(objs, [root_now])
+                ev = {"typ": "cfr", "case": case, "k": k, "form": "again_after_" + how, "hb": hb, "node": objs.of(nd), "ret": 0}
+                try:
+                    r = nd.clone_from_root()
+                    ev["outcome"] = "ok"
+                    ev["ret"] = objs.of(r) if hasattr(r, "left") else 0
+                except BaseException as e:  # noqa
+                    ev["outcome"] = type(e).__name__
+                    r = None
+                ev["h"] = snap(objs, [r] if r is not None and hasattr(r, "left") else [])
+                out.append(ev)
     return out
+
+
+def change_ancestors(nd, how):
+    """re-link the ancestors of nd in place, keeping nd itself; False if not possible here"""
+    from mathy_core.expressions import AddExpression, ConstantExpression, SubtractExpression, NegateExpression
+    par = nd.parent
+    if how == "rotate_parent":
+        if par.parent is None:
+            return False
+        par.rotate()
+        return True
+    if how == "swap_siblings":
+        if par.left is None or par.right is None:
+            return False
+        l, r = par.left, par.right
+        par.set_left(r)
+        par.set_right(l)
+        return True
+    if how == "new_root":
+        AddExpression(nd.get_root(), ConstantExpression(1))
+        return True
+    if how == "restate":
+        # what RestateSubtraction does in place: a - b  ->  a + -b  (the ancestor node is replaced, nd is re-used)
+        a = par
+        while a is not None and not isinstance(a, SubtractExpression):
+            a = a.parent
+        if a is None:
+            return False
+        gp = a.parent
+        side = gp.get_side(a) if gp is not None else None
+        new = AddExpression(a.left, NegateExpression(a.right))
+        if gp is not None:
+            gp.set_side(new, side)
+        return True
+    return False
 
 
 def mutate(root, how):
@@ -161,7 +227,7 @@ def mutate(root, how):
             kids[len(kids) // 2].rotate()
 
 
-TEXTS = ["4x + 2y^3", "-(2y + 3)^2", "sgn(x - 7)", "3!", "5! + x", "4(x + 2) + 7y", "x = 2y + 1", "2x * 3x * x", "0.5x^2 - -3", "(x + 1)(x - 1)",
+TEXTS = ["3.0x + 2.0", "7.0^30 * y - 2", "1.0", "2.50x^2.0", "4x + 2y^3", "-(2y + 3)^2", "sgn(x - 7)", "3!", "5! + x", "4(x + 2) + 7y", "x = 2y + 1", "2x * 3x * x", "0.5x^2 - -3", "(x + 1)(x - 1)",
          "x + x + x", "2 * 2 * 2", "-x - -x", "-5!", "12345678901234567891x", "x^2^3", "2^(x^y)", "((x))", "7 / (x / y) / z"]
 
 
@@ -181,7 +247,7 @@ def domain(ctx):
     for _ in range(20 if ctx.quick else 400):
         cases.append({"src": "shape", "shape": random_shape(rng, rng.randint(n + 1, 10)), "cls": rng.choice(["expr", "uniform"]), "mutations": [rng.choice(["payload", "relink", "rotate"])]})
     return cases, ("%d parser texts; 8 rewrite-step results (repeated node ids); every shape <= %d nodes built through the public constructors as mixed-kind / all-equal-kind expression trees "
-                   "(one-operand nodes with the operand on either side) and plain nodes; seeded random shapes up to 10 nodes; clone(), clone_from_root on every node in three call forms, "
+                   "(one-operand nodes with the operand on either side) and plain nodes; seeded random shapes up to 10 nodes; clone(), clone_from_root on every node in three call forms and again after an in-place change of the node's ancestors (rotate, swap, new root, restate), "
                    "then payload / relink / rotate mutations of either side" % (len(TEXTS), n))
 
 
